@@ -100,6 +100,9 @@ func loadRepo(repo string, stdlibContracts string) (*Loaded, error) {
 func (x *Exec) allFns() map[string][]*ssa.Function { return x.ld.fnByKey }
 
 func (ld *Loaded) newExec() *Exec {
+	helperHasContract = func(fn *ssa.Function) bool {
+		return ld.cs.Funcs[fnKey(fn)] != nil || fn.Parent() != nil
+	}
 	inlinedFn = func(fn *ssa.Function) bool {
 		c := ld.cs.Funcs[fnKey(fn)]
 		return c != nil && c.Inline
